@@ -31,7 +31,8 @@ def setup_world(I, pool, users=('trader',), extra_pm=None):
         bal = I.sym('pm_balance_' + d[1:], hi=U128)
         I.assume(bal >= c.get('amount'))
         b.set(PM, d, bal)
-        b.supply[d] = I.sym('supply_' + d[1:], hi=U128 * 4)
+        # total supply of a denom fits 128 bits on the chain (also after the users' funds are added on top)
+        b.supply[d] = I.sym('supply_' + d[1:], hi=U128)
         I.assume(b.supply[d] >= bal)
     return b
 
@@ -69,6 +70,7 @@ def _ob_s1(n_extra, recv_kind):
         o = I.sym('offer', lo=1, hi=U128)
         b.set('trader', 'uA', o)
         b.supply['uA'] = simp(b.supply['uA'] + o)
+        I.assume(b.supply['uA'] <= U128)      # the bank's total supply of a denom fits 128 bits
         tol = I.sym('max_slippage_atomics', hi=U128)
         if recv_kind == 'none':
             recv, recv_addr = NONE(), 'trader'
